@@ -256,12 +256,16 @@ class SimDevice(object):
             self.send(A_WRTE, st.remote, st.local, rec)
             st.waiting_okay = True
             st.failed = True
-        if not self.cfg.get("no_okay_for_wrte"):
+        late_okay = self.cfg.get("okay_after_reply") and not getattr(st, "failed", False)
+        if not self.cfg.get("no_okay_for_wrte") and not late_okay:
             self.send(A_OKAY, st.remote, st.local)
         if getattr(st, "failed", False):
             return
         st.sync_in += data
         self.process_sync(st)
+        if late_okay and not self.cfg.get("no_okay_for_wrte"):
+            # the device's replies race ahead of its acknowledgement of the host's WRTE
+            self.send(A_OKAY, st.remote, st.local)
 
     def queue_sync_reply(self, st, raw):
         split = self.cfg.get("wrte_split")
